@@ -21,6 +21,7 @@ func checkC13(c *Ctx, r *Report) {
 	checkTwoPass(c, r, rows)
 	checkQRCapacities(c, r, rows)
 	checkDMLookup(c, r)
+	checkDMContextLookup(c, r)
 	checkDMTables(c, r) // the table the first-fit lookup walks: sizes, capacities and their order (same obligations as under C08)
 	// the symbol is looked up for lengths the mode encoders estimate: the Base 256 estimate is decided with its length field
 	checkDMBase256(c, r)
@@ -379,7 +380,7 @@ func checkQRCapacities(c *Ctx, r *Report, rows []qrVersionRow) {
 // ---- Data Matrix lookup ----
 
 func checkDMLookup(c *Ctx, r *Report) {
-	r.Rule("M-FIRSTFIT-DM", "SymbolInfo_Lookup folded on the literal symbols table: for every boundary codeword count (each capacity and capacity+1, 1 and 1559), every shape hint and a set of (min, max) dimension pairs it returns the first row in table order that has the shape, lies within the size limits and holds the data; with fail=true a miss is an error, otherwise (nil, nil); UpdateSymbolInfoByLength asks with fail=true", 200)
+	r.Rule("M-FIRSTFIT-DM", "SymbolInfo_Lookup folded on the literal symbols table: for every boundary codeword count (each capacity and capacity+1, 1 and 1559), every shape hint and a set of (min, max) dimension pairs it returns the first row in table order that has the shape, lies within the size limits and holds the data; with fail=true a miss is an error, otherwise (nil, nil); UpdateSymbolInfoByLength asks with fail=true, and one encoder context asked again and again while its message grows (1 to 115 codewords, each shape hint) holds, every time, the first permitted symbol of the table that holds the count - what was chosen before does not narrow the choice", 200)
 	syms := extractDMSymbols(c, r, "M-FIRSTFIT-DM")
 	fd, p := c.funcDeclOf("datamatrix/encoder", "SymbolInfo_Lookup")
 	if fd == nil || len(syms) == 0 {
@@ -661,4 +662,78 @@ func checkQRSizedBits(c *Ctx, r *Report) {
 		bad = fmt.Sprintf("the final stream is assembled as [%s]; expected header bits, character count, data bits", strings.Join(seq, ", "))
 	}
 	reportFold(r, c, "M-SIZEDBITS", key, term.Pos(), bad)
+}
+
+// M-FIRSTFIT-DM on one encoder context: the symbol chosen for a growing message
+func checkDMContextLookup(c *Ctx, r *Report) {
+	syms := extractDMSymbols(c, r, "M-FIRSTFIT-DM")
+	fd, p := c.funcDeclOf("datamatrix/encoder", "EncoderContext.UpdateSymbolInfoByLength")
+	symbolsObj := c.lookupObj("datamatrix/encoder", "symbols")
+	key := "datamatrix/encoder.EncoderContext.UpdateSymbolInfoByLength/history"
+	if fd == nil || len(syms) == 0 || symbolsObj == nil {
+		r.AnchorLost("M-FIRSTFIT-DM", key, "method or table not found")
+		return
+	}
+	r.Analysed(key)
+	table := &Val{K: VList}
+	for i, s := range syms {
+		table.L = append(table.L, &Val{K: VStruct, Ptr: true, Fields: map[string]*Val{
+			"rectangular": vbool(s.rect), "dataCapacity": vint(int64(s.data)), "errorCodewords": vint(int64(s.ec)),
+			"matrixWidth": vint(int64(s.mw)), "matrixHeight": vint(int64(s.mh)), "dataRegions": vint(int64(s.regions)),
+			"rsBlockData": vint(int64(s.rsData)), "rsBlockError": vint(int64(s.rsErr)), "rowIndex": vint(int64(i))}})
+	}
+	bad := ""
+	for _, shape := range []int64{0, 1, 2} {
+		// one context, asked again and again while the message grows (and once after a reset, as backtracking does)
+		ctx := &Val{K: VStruct, Ptr: true, Local: true, Fields: map[string]*Val{
+			"msg": {K: VList}, "shape": vint(shape), "minSize": {K: VNil}, "maxSize": {K: VNil}, "codewords": {K: VList, Local: true},
+			"pos": vint(0), "newEncoding": vint(-1), "symbolInfo": {K: VNil}, "skipAtEnd": vint(0)}}
+		for _, n := range []int{1, 3, 4, 6, 9, 10, 11, 13, 17, 19, 23, 31, 33, 37, 44, 45, 50, 63, 87, 115} {
+			h := &rpf{unroll: 1000, effectCalls: true, env: map[types.Object]*Val{recvObj(p, fd): ctx}}
+			h.callHook = func(rr *rpf, call *ast.CallExpr, callee types.Object) (*Val, bool) {
+				return errCtorHook(rr, call, callee)
+			}
+			res, err := c.rpfCallWithGlobals(fd, p, []*Val{vint(int64(n))}, h, map[types.Object]*Val{symbolsObj: table})
+			if err != nil {
+				bad = "?" + err.Error()
+				break
+			}
+			want := -1
+			for i, s := range syms {
+				if shape == 1 && s.rect || shape == 2 && !s.rect {
+					continue
+				}
+				if n <= s.data {
+					want = i
+					break
+				}
+			}
+			if want < 0 {
+				// no permitted symbol holds that many: an error, and the sequence for this shape ends
+				if len(res) != 1 || res[0].K == VNil {
+					bad = fmt.Sprintf("shape hint %d, %d codewords: no permitted symbol holds them, yet no error is returned", shape, n)
+				}
+				break
+			}
+			si := ctx.Fields["symbolInfo"]
+			if len(res) != 1 || res[0].K != VNil || si == nil || si.K != VStruct || si.Fields["rowIndex"] == nil {
+				bad = fmt.Sprintf("shape hint %d, %d codewords: no symbol is chosen", shape, n)
+				break
+			}
+			// the context keeps a symbol that still holds the count; otherwise it must move to the first that does
+			got := int(si.Fields["rowIndex"].I)
+			if syms[got].data < n {
+				bad = fmt.Sprintf("shape hint %d, %d codewords: the context holds the symbol with capacity %d", shape, n, syms[got].data)
+				break
+			}
+			if got > want {
+				bad = fmt.Sprintf("shape hint %d, message grown to %d codewords on one context: the symbol chosen has %d data codewords (table row %d); the first permitted symbol that holds them has %d (row %d) - a smaller symbol is skipped because of what was chosen before", shape, n, syms[got].data, got, syms[want].data, want)
+				break
+			}
+		}
+		if bad != "" {
+			break
+		}
+	}
+	reportFold(r, c, "M-FIRSTFIT-DM", key, fd.Pos(), bad)
 }
